@@ -45,9 +45,11 @@ and the collection of an owner while one of its own methods is executing (CPytho
 it then, and `exec` mirrors that: `ownerRunning`).  Core only. -/
 namespace Pox.Revent
 
-/-- exception classes the code can produce: `ReventError`, `KeyError`, `AttributeError`, `UnboundLocalError`, anything else (scripted handler exceptions,
-    `TypeError` of `autoBindEvents` on `_eventMixin_events = True`) -/
-inductive Exc | revent | key | attr | unbound | other
+/-- exception classes the code can produce: `ReventError`, `KeyError`, `AttributeError`, `UnboundLocalError`, anything else derived from `Exception` (`other`: scripted handler exceptions,
+    `TypeError` of `autoBindEvents` on `_eventMixin_events = True`), and `base`: an exception that derives from `BaseException`
+    but not from `Exception` (`SystemExit`, `KeyboardInterrupt`, `GeneratorExit`, an application's own).  `raiseEventNoErrors`'
+    bare `except:` makes no difference between them: `abort` treats every kind but `ReventError` alike. -/
+inductive Exc | revent | key | attr | unbound | other | base
   deriving DecidableEq, Repr
 
 /-- what a handler returns, classified exactly as `raiseEvent` 299-316 looks at it: `None`, `False`, `True`, a tuple of
